@@ -40,6 +40,7 @@ def run(cmd, cwd, timeout=1800, env=None):
 def ingest_one(src):
     pid = os.path.basename(os.path.dirname(src.rstrip("/")))
     var = os.path.basename(src.rstrip("/"))
+    var = dict(kv.split("=") for kv in os.environ.get("SEED_RENAME", "").split(",") if kv).get(var, var)
     sid = f"{pid}-{var}"
     patch, demo = os.path.join(src, "patch.diff"), os.path.join(src, "demo.py")
     if not (os.path.exists(patch) and os.path.exists(demo)):
